@@ -206,10 +206,7 @@ def probes():
 
 
 # bounded-exhaustive family: EVERY sequence of up to SEQ_LEN tokens over this alphabet (document mode, + observation text)
-SEQ_ALPHABET = ["<table>", "</table>", "<tr>", "<td>", "</td>", "<caption>", "<b>", "</b>", "<a>", "</a>", "<p>", "</p>", "<div>", "</div>",
-                "<li>", "<select>", "</select>", "<option>", "<form>", "</form>", "<button>", "<svg>", "</svg>", "<math>", "<mi>", "<desc>",
-                "<title>", "<frameset>", "</body>", "</html>", "<template>", "<nobr>", "<h1>", "<ruby>", "<rt>", "<object>", "</object>",
-                "<input type=hidden>", "<br>", "x", " ", "<!--c-->", "\x00"]
+SEQ_ALPHABET = gen.TOKEN_ALPHABET
 SEQ_LEN = {"quick": 3, "thorough": 4}
 
 
